@@ -946,3 +946,145 @@ Proof.
   split; [reflexivity|]. split; [vm_compute; lia|].
   vm_compute. discriminate.
 Qed.
+
+(* ------------------------------------------------------------------ Part 2d: struct data, members that are not there *)
+
+(* deriving the members from the call's own value, by pure helpers, writes nothing shared *)
+Lemma mstep_reads_only : reads_only (mstep MAsIs).
+Proof.
+  intros h r h' r' H. unfold mstep in H.
+  destruct (m_pc r) as [[items|] code out|todo code out|f items code out|out].
+  - destruct code as [|f rest]; [inversion H; reflexivity|].
+    destruct (member_fast items f); inversion H; reflexivity.
+  - destruct (m_data r); inversion H; reflexivity.
+  - destruct todo; destruct (m_data r); inversion H; reflexivity.
+  - inversion H; reflexivity.
+  - discriminate.
+Qed.
+
+(* a converted value: every member read is the member of the call's own value *)
+Lemma member_alone h d items k : forall code out,
+  mresult (snd (alone (mstep MAsIs) (S (length code) + k) h (mkM d (MRun (Some items) code out)))) =
+  Some (out ++ map (member items) code).
+Proof.
+  induction code as [|f rest IH]; intros out.
+  - simpl. rewrite alone_stuck by reflexivity. simpl. rewrite app_nil_r. reflexivity.
+  - change (S (length (f :: rest)) + k) with (S (S (length rest) + k)).
+    cbn [alone]. unfold mstep at 1. cbn [m_pc m_data].
+    destruct (member_fast items f) as [x|] eqn:Ef.
+    + rewrite IH. cbn [map].
+      assert (Em : member items f = Some x) by (unfold member; rewrite Ef; reflexivity).
+      rewrite Em, <- app_assoc. reflexivity.
+    + rewrite IH. cbn [map].
+      assert (Em : member items f = member_slow items f (title f) (title (fold_ids f)))
+        by (unfold member; rewrite Ef; reflexivity).
+      rewrite Em, <- app_assoc. reflexivity.
+Qed.
+
+Lemma mrender_alone h d code k :
+  mresult (snd (alone (mstep MAsIs) (S (S (length code)) + k) h (new_mrender d code))) =
+  Some (mspec (ms_types h) d code).
+Proof.
+  change (S (S (length code)) + k) with (S (S (length code) + k)).
+  unfold new_mrender. cbn [alone]. unfold mstep at 1. cbn [m_pc m_data].
+  assert (E : (match d, MAsIs with
+               | DStruct t vals, MTypeCache =>
+                 match nlookup t (ms_cache h) with
+                 | Some names => Some (h, mkM d (MRun (Some (combine names vals)) code []))
+                 | None => Some (mkMS (ms_types h) ((t, []) :: ms_cache h) (ms_word h),
+                                 mkM d (MFill (names_of h t) code []))
+                 end
+               | _, _ => Some (h, mkM d (MRun (Some (items_of (ms_types h) d)) code []))
+               end) = Some (h, mkM d (MRun (Some (items_of (ms_types h) d)) code []))).
+  { destruct d; reflexivity. }
+  rewrite E. rewrite member_alone. reflexivity.
+Qed.
+
+(* any number of renders, each with its own data (struct or map), under ANY schedule that gives
+   render i enough steps, whatever the others render and whether or not anybody has rendered a
+   value of that type before: render i returns the members of ITS value, the shared state is as
+   it was *)
+Lemma member_engine_own_data sched h l i d code :
+  nth_error l i = Some (new_mrender d code) ->
+  S (length code) < count i sched ->
+  option_map mresult (nth_error (rs (run (mstep MAsIs) sched (mkSys h l))) i) =
+    Some (Some (mspec (ms_types h) d code))
+  /\ sh (run (mstep MAsIs) sched (mkSys h l)) = h.
+Proof.
+  intros Hi Hn. split.
+  - rewrite (interleave_ro _ _ _ mstep_reads_only sched h l i _ Hi). cbn [option_map].
+    replace (count i sched) with (S (S (length code)) + (count i sched - S (S (length code)))) by lia.
+    rewrite mrender_alone. reflexivity.
+  - apply (shared_unchanged_ro _ _ _ mstep_reads_only sched (mkSys h l)).
+Qed.
+
+(* a concrete type table: a product with four fields *)
+Definition mx_types : list (nat * list bytes) := [(7, [B "Name"; B "UserID"; B "Qty"; B "Last"])].
+Definition mx_shared : mshared := mkMS mx_types [] [].
+Definition mx_code : list bytes := [B "name"; B "badge"; B "userid"; B "last"].
+Definition mx_renders : list mstate :=
+  [new_mrender (DStruct 7 [1; 2; 3; 4]%Z) mx_code;
+   new_mrender (DStruct 7 [5; 6; 7; 8]%Z) mx_code;
+   new_mrender (DMapV [(B "First Name", 9%Z); (B "URL", 10%Z)]) [B "first name"; B "url"; B "zzz"]].
+
+(* found as written / not there / found by folding userid to userID / found as written;
+   found by title-casing / found by folding url to URL / not there *)
+Example member_engine_example :
+  map mresult (rs (run (mstep MAsIs) (round_robin 3 7) (mkSys mx_shared mx_renders))) =
+  [Some [Some 1; None; Some 2; Some 4]%Z; Some [Some 5; None; Some 6; Some 8]%Z; Some [Some 9; Some 10; None]%Z].
+Proof. vm_compute. reflexivity. Qed.
+
+(* the per-type cache, one render AFTER the other: nothing to see, now or ever after *)
+Example member_cache_sequential_is_right :
+  map mresult (rs (run (mstep MTypeCache) (repeat 0 12 ++ repeat 1 12 ++ repeat 2 12) (mkSys mx_shared mx_renders))) =
+  [Some [Some 1; None; Some 2; Some 4]%Z; Some [Some 5; None; Some 6; Some 8]%Z; Some [Some 9; Some 10; None]%Z].
+Proof. vm_compute. reflexivity. Qed.
+
+(* the per-type cache, two renders meeting the type for the first time together: render 0 has
+   published the entry and written two of the four names when render 1 converts its value *)
+Definition mx_sched_cache : list nat := [0; 0; 0] ++ repeat 1 8 ++ repeat 0 10.
+
+Example member_cache_interference :
+  map mresult (rs (run (mstep MTypeCache) mx_sched_cache (mkSys mx_shared (firstn 2 mx_renders)))) =
+  [Some [Some 1; None; Some 2; Some 4]%Z; Some [Some 5; None; Some 6; None]%Z].
+Proof. vm_compute. reflexivity. Qed.
+
+Lemma member_type_cache_refuted :
+  exists sched h l i d code,
+    nth_error l i = Some (new_mrender d code) /\
+    S (length code) < count i sched /\
+    option_map mresult (nth_error (rs (run (mstep MTypeCache) sched (mkSys h l))) i) <>
+      Some (Some (mspec (ms_types h) d code)).
+Proof.
+  exists mx_sched_cache, mx_shared, (firstn 2 mx_renders), 1, (DStruct 7 [5; 6; 7; 8]%Z), mx_code.
+  split; [reflexivity|]. split; [vm_compute; lia|].
+  vm_compute. discriminate.
+Qed.
+
+(* the shared caser, one render after the other: right *)
+Example member_caser_sequential_is_right :
+  map mresult (rs (run (mstep MSharedCaser) (repeat 0 12 ++ repeat 1 12 ++ repeat 2 12) (mkSys mx_shared mx_renders))) =
+  [Some [Some 1; None; Some 2; Some 4]%Z; Some [Some 5; None; Some 6; Some 8]%Z; Some [Some 9; Some 10; None]%Z].
+Proof. vm_compute. reflexivity. Qed.
+
+(* the shared caser, overlapping: render 2 has handed "first name" to the caser when render 0
+   hands it "badge"; render 2 reads back "Badge" *)
+Definition mx_sched_caser : list nat := [2; 2; 0; 0; 0] ++ repeat 2 6 ++ repeat 0 6.
+
+Example member_caser_interference :
+  map mresult (rs (run (mstep MSharedCaser) mx_sched_caser (mkSys mx_shared mx_renders))) =
+  [Some [Some 1; None; Some 2; Some 4]%Z; None; Some [None; Some 10; None]%Z].
+Proof. vm_compute. reflexivity. Qed.
+
+Lemma member_shared_caser_refuted :
+  exists sched h l i d code,
+    nth_error l i = Some (new_mrender d code) /\
+    S (length code) < count i sched /\
+    option_map mresult (nth_error (rs (run (mstep MSharedCaser) sched (mkSys h l))) i) <>
+      Some (Some (mspec (ms_types h) d code)).
+Proof.
+  exists mx_sched_caser, mx_shared, mx_renders, 2,
+         (DMapV [(B "First Name", 9%Z); (B "URL", 10%Z)]), [B "first name"; B "url"; B "zzz"].
+  split; [reflexivity|]. split; [vm_compute; lia|].
+  vm_compute. discriminate.
+Qed.
